@@ -7,6 +7,7 @@
 #include <stdlib.h>
 #include <string.h>
 #include <pthread.h>
+#include <time.h>
 #include <unistd.h>
 #include "libconfig.h"
 
@@ -35,6 +36,23 @@ static void emit(FILE *t, const config_setting_t *s, int depth)
   for (i = 0; i < n; i++) emit(t, config_setting_get_elem(s, i), depth + 1);
 }
 
+/* deep include chains held open by ALL threads at the same moment: the include function of the chain's last file waits
+ * at a barrier (parallel phase only), so nt x 9 include frames exist at once - independent configurations must not count
+ * against each other */
+static pthread_mutex_t deep_mu = PTHREAD_MUTEX_INITIALIZER; static pthread_cond_t deep_cv = PTHREAD_COND_INITIALIZER;
+static int deep_bar_on, deep_need, deep_arrived;
+static const char **deep_inc(config_t *c, const char *dir, const char *path, const char **error)
+{
+  if (deep_bar_on && strstr(path, "_d9.cfg")) {
+    /* wait until every thread is this deep (at most 3 s: a thread whose read failed earlier never arrives) */
+    struct timespec ts; clock_gettime(CLOCK_REALTIME, &ts); ts.tv_sec += 3;
+    pthread_mutex_lock(&deep_mu); deep_arrived++; pthread_cond_broadcast(&deep_cv);
+    while (deep_arrived < deep_need) if (pthread_cond_timedwait(&deep_cv, &deep_mu, &ts) != 0) break;
+    pthread_mutex_unlock(&deep_mu);
+  }
+  return config_default_include_func(c, dir, path, error);
+}
+
 static void *work(void *arg)
 {
   struct job *j = arg; FILE *t = open_memstream(&j->out, &j->len); unsigned r = j->seed * 2654435761u + j->id * 40503u;
@@ -51,6 +69,22 @@ static void *work(void *arg)
     snprintf(text, sizeof text, "id = %d; pi = %d.%u; name = \"thread %d round %d\";\n@include \"%s\"\ngrp = { a = [1, 2, %u]; l = ( 1.5, \"x\", { y = 0x%X; } ); };\nhuge = %d.5e300; big = [ -%u.25e15, 1e22, %u.0e40 ];\n",
              j->id, j->id, r % 100000, j->id, round, inc, r % 77, r & 0xffff, j->id + 1, r % 9000 + 1000, r % 97 + 1);
     fprintf(t, "read_string %d\n", config_read_string(&c, text));
+    if (round == 0) {
+      config_t dc; char dn[64], dt[128]; int k, dv9 = -1;
+      for (k = 1; k <= 9; k++) {
+        snprintf(dn, sizeof dn, "thr%d_d%d.cfg", j->id, k); f = fopen(dn, "w");
+        if (k < 9) fprintf(f, "lvl%d = %d;\n@include \"thr%d_d%d.cfg\"\n", k, k, j->id, k + 1); else fprintf(f, "deep = %d;\n", 9000 + j->id);
+        fclose(f);
+      }
+      config_init(&dc); config_set_include_func(&dc, deep_inc);
+      snprintf(dt, sizeof dt, "@include \"thr%d_d1.cfg\"\n", j->id);
+      k = config_read_string(&dc, dt); config_lookup_int(&dc, "deep", &dv9);
+      fprintf(t, "deep %d %d %s\n", k, dv9, config_error_text(&dc) ? config_error_text(&dc) : "-");
+      config_destroy(&dc);
+    }
+    /* values whose short rendering rounds past DBL_MAX (the writer re-renders them exactly), different per thread */
+    { config_setting_t *top = config_setting_add(config_root_setting(&c), "top", CONFIG_TYPE_FLOAT); char lit[48];
+      snprintf(lit, sizeof lit, "1.797693134862%02de308", 10 + j->id); if (top) config_setting_set_float(top, (round & 1 ? -1 : 1) * strtod(lit, NULL)); }
     if (round % 3 == 1) { fprintf(t, "bad %d %s %d\n", config_read_string(&c, "a = 1;\na = ;"), config_error_text(&c), config_error_line(&c)); config_read_string(&c, text); }
     /* every kind of failing read, each thread with its own names; the error record is read only after more work,
      * so that a record living in shared storage would have been overwritten by another thread meanwhile */
@@ -74,6 +108,9 @@ static void *work(void *arg)
       fprintf(t, "lookup %d %d %d %a %d %s\n", r1, iv, r2, dv, r3, sv); }
     emit(t, root, 0);
     config_write(&c, t);
+    { int o = config_get_options(&c); unsigned short pr = config_get_float_precision(&c);
+      config_set_option(&c, CONFIG_OPTION_ALLOW_SCIENTIFIC_NOTATION, 1); config_set_float_precision(&c, 3 + round % 3);
+      config_write(&c, t); config_set_options(&c, o); config_set_float_precision(&c, pr); }
     fprintf(t, "write_file %d\n", config_write_file(&c, fname));
     { config_t d; config_init(&d); fprintf(t, "read_file %d\n", config_read_file(&d, fname)); emit(t, config_root_setting(&d), 0); config_destroy(&d); }
     /* an allocation failure in this thread, handled by jumping out of the library; then the same again: the handler
@@ -99,8 +136,10 @@ int main(int argc, char **argv)
     /* a 4th field "1" = run the threads BEFORE the serial reference runs (the very first use of the library is concurrent) */
     if (sscanf(line, "thrcase %d %d %u %d", &nt, &rounds, &seed, &parfirst) < 3 || nt < 1 || nt > MAXT) { printf("bad-op\n"); fflush(stdout); continue; }
     if (!parfirst) for (i = 0; i < nt; i++) { serial[i] = (struct job){ i, rounds, seed, NULL, 0 }; work(&serial[i]); }
+    deep_need = nt; deep_arrived = 0; deep_bar_on = 1;
     for (i = 0; i < nt; i++) { par[i] = (struct job){ i, rounds, seed, NULL, 0 }; pthread_create(&th[i], NULL, work, &par[i]); }
     for (i = 0; i < nt; i++) pthread_join(th[i], NULL);
+    deep_bar_on = 0;
     if (parfirst) for (i = 0; i < nt; i++) { serial[i] = (struct job){ i, rounds, seed, NULL, 0 }; work(&serial[i]); }
     for (i = 0; i < nt; i++) {
       if (serial[i].len != par[i].len || memcmp(serial[i].out, par[i].out, par[i].len)) { if (bad < 0) bad = i; }
